@@ -130,6 +130,19 @@ inline bool decide_cmp(Op op, uint32_t a, uint32_t b) {
       switch (op) { case C_LT: return p < q; case C_LE: return p <= q; case C_EQ: return p == q; default: break; } }
     else switch (op) { case C_LT: return x.i < y.i; case C_LE: return x.i <= y.i; case C_EQ: return x.i == y.i; default: break; }
   }
+  // IEEE 754 §5.11: every ordered comparison with a NaN operand is false.  Once `isnan(x)` has been decided true on this path, a later
+  // `x < y`, `x <= y`, `x == y` is not a free decision any more (otherwise e.g. `min(a, fmin(c, d))` grows infeasible paths).
+  if (arena().nodes[a].op != LITI && arena().nodes[b].op != LITI) {
+    uint32_t na = mk(C_ISNAN, a), nb = mk(C_ISNAN, b);
+    // (a condition can be asked more than once on a path - every component of a vector function asks again about a broadcast scalar -
+    //  and the tracer explores both answers each time; the most recent answer is the one the code that follows was selected by)
+    bool sa = false, sb = false, fa = false, fb = false;
+    for (auto it = oracle().trail.rbegin(); it != oracle().trail.rend() && !(sa && sb); ++it) {
+      if (!sa && it->first == na) { sa = true; fa = it->second; }
+      if (!sb && it->first == nb) { sb = true; fb = it->second; }
+    }
+    if (fa || fb) return false;
+  }
   return oracle().ask(mk(op, a, b));
 }
 
@@ -291,6 +304,10 @@ inline SymR fmod(SymR a, SymR b) { return symt::call2(symt::F_FMOD, a, b); }
 inline SymR fma(SymR a, SymR b, SymR c) { return symt::call3(symt::F_FMA, a, b, c); }
 inline bool isnan(SymR a) { return symt::oracle().ask(symt::mk(symt::C_ISNAN, a.id)); }
 inline bool isinf(SymR a) { return symt::oracle().ask(symt::mk(symt::C_ISINF, a.id)); }
+// std::fmin / std::fmax (C99: a NaN operand is treated as missing data).  glm imports them with `using std::fmin` and passes
+// them by address to its vector functors, so the symbolic overload has to be a real function in namespace std.
+inline SymR fmin(SymR a, SymR b) { if (isnan(a)) return b; if (isnan(b)) return a; return (b < a) ? b : a; }
+inline SymR fmax(SymR a, SymR b) { if (isnan(a)) return b; if (isnan(b)) return a; return (a < b) ? b : a; }
 }
 
 namespace symt {
